@@ -82,7 +82,7 @@ def r1(ctx, chk):
     t = " ".join(ast.unparse(f.node).split())
     p = f.params()
     ok = ("if %s.STRICT_PARSING and %s:" % (p[1], p[0])) in t and ("elif %s.REQUIRE_PARTS and %s:" % (p[1], p[0])) in t \
-        and "for part in %s.REQUIRE_PARTS if part in %s" % (p[1], p[0]) in t
+        and __import__("re").search(r"for (\w+) in %s\.REQUIRE_PARTS if \1 in %s" % (p[1], p[0]), t) is not None
     chk.ob(rule, "_check_strict_parsing: STRICT => any missing part fails; REQUIRE_PARTS => exactly the required missing parts fail", ok, "",
            key={"function": FILTER, "construct": "filter semantics"}, file=f.file, function=f.qual, line=f.node.lineno)
 
@@ -191,9 +191,9 @@ def r2(ctx, chk):
                key={"function": f.key, "construct": "filter dominates " + what.split(" ")[0] + " " + " ".join(ast.unparse(node).split())[:50]},
                file=f.file, function=f.qual, line=node.lineno, text=ast.unparse(node)[:120])
     # the filter receives the list of missing parts computed from the parsed components / the format
-    for fk, expect in (("dateparser.parser:_parser._results", "not getattr(self, field)"),
-                       ("dateparser.parser:_no_spaces_parser.parse", "_get_missing_parts(fmt)"),
-                       ("dateparser.date:parse_with_formats", "_get_missing_parts(date_format)")):
+    for fk, expect in (("dateparser.parser:_parser._results", r"not getattr\(self, \w+\)"),
+                       ("dateparser.parser:_no_spaces_parser.parse", r"_get_missing_parts\(\w+\)"),
+                       ("dateparser.date:parse_with_formats", r"_get_missing_parts\(\w+\)")):
         f = ix.func(fk)
         calls = [n for n in iter_own_nodes(f.node) if isinstance(n, ast.Call) and _is_filter_call(ctx, f, n, always)]
         ok = False
@@ -201,7 +201,7 @@ def r2(ctx, chk):
             if c.args and isinstance(c.args[0], ast.Name):
                 defs = [ast.unparse(n.value) for n in iter_own_nodes(f.node) if isinstance(n, ast.Assign)
                         and ast.unparse(n.targets[0]) == c.args[0].id]
-                if any(expect in d for d in defs):
+                if any(__import__("re").search(expect, d) for d in defs):
                     ok = True
         chk.ob(rule, "%s hands the filter the parts that are really missing (%s)" % (f.qual, expect), ok,
                "the filter is called with something else than the computed missing parts",
